@@ -11,8 +11,9 @@
 (* and slot for slot (C = 31, FixFind = TRUE, i.e. the repaired code).     *)
 (* Calls that must not change the shape of the index (reads, Sync,         *)
 (* Compact, Backup, and a clean Close/Open) must leave the projection      *)
-(* unchanged; after a recovering Open the logged state is checked for      *)
-(* well-formedness and adopted.                                            *)
+(* unchanged; after a recovering Open the model is rebuilt by replaying    *)
+(* the surviving records (as logged) through LHIndex!Put / LHIndex!Del and *)
+(* the index the real recovery built must equal it.                        *)
 (*                                                                         *)
 (* As in TraceWal.tla a mismatch is DRIFT, not a property violation.       *)
 (***************************************************************************)
@@ -20,8 +21,9 @@ EXTENDS LHIndex, SequencesExt, Json, IOUtils
 
 Trace == ndJsonDeserialize(IOEnv.TRACE)
 
-VARIABLE l
-tvars == <<vars, l>>
+VARIABLES l,
+          rq      \* records still to be replayed into the model after a recovering Open (silent steps)
+tvars == <<vars, l, rq>>
 
 Ev == Trace[l]
 Is(e) == l <= Len(Trace) /\ Trace[l].e = e
@@ -64,49 +66,57 @@ SlotHashesOK(e) ==
      LET s == e.chains[b][j].slots[i] IN s[1] \in TraceKeys /\ s[2] = TraceH[s[1]]
 
 -----------------------------------------------------------------------------
-TInit == /\ h = TraceH /\ l = 1 /\ TLCSet(1, 1)
+TInit == /\ h = TraceH /\ l = 1 /\ rq = <<>> /\ TLCSet(1, 1)
          /\ level = 0 /\ split = 0 /\ nkeys = 0
          /\ main = <<EmptyB>> /\ ovf = <<>> /\ free = <<>>
          /\ live = [k \in TraceKeys |-> 0] /\ nops = 0
 
-TReset == /\ Is("reset") /\ Step
+TReset == /\ Is("reset") /\ Step /\ rq' = <<>>
           /\ level' = 0 /\ split' = 0 /\ nkeys' = 0
           /\ main' = <<EmptyB>> /\ ovf' = <<>> /\ free' = <<>>
           /\ live' = [k \in TraceKeys |-> 0] /\ nops' = 0 /\ UNCHANGED h
 
-\* after a recovering Open: the logged index must be well formed and hold exactly the keys the model holds;
-\* its shape (recovery rebuilds it) is adopted.  A clean restart ("open") falls under TSame: level, split
-\* pointer, counts, free list and every chain come back exactly as they were closed
-TOpened ==
-  /\ Is("idx") /\ Ev.after \in {"recovered", "tear"} /\ Step
-  /\ SlotHashesOK(Ev)
-  /\ level' = Ev.level /\ split' = Ev.split /\ nkeys' = Ev.nkeys
-  /\ main' = ObsMain(Ev) /\ ovf' = ObsOvf(Ev) /\ free' = Ev.free
+\* A recovering Open rebuilds the index by inserting the surviving records in log order (recovery.go).  The "wal"
+\* event logged right after such an Open lists those records; the model is emptied and they are replayed into it
+\* by silent steps (LHIndex!Put / LHIndex!Del, no trace line consumed) ...
+AllRecs(segs) == FoldLeft(LAMBDA acc, sg : acc \o [j \in 1..Len(sg.recs) |-> <<sg.recs[j][1], sg.recs[j][2]>>], <<>>, segs)
+TRecBegin ==
+  /\ Is("wal") /\ Ev.after \in {"recovered", "tear"} /\ Step /\ rq = <<>>
+  /\ level' = 0 /\ split' = 0 /\ nkeys' = 0
+  /\ main' = <<EmptyB>> /\ ovf' = <<>> /\ free' = <<>>
+  /\ live' = [k \in TraceKeys |-> 0]
+  /\ rq' = AllRecs(Ev.segs)
   /\ UNCHANGED <<h, nops>>
-  /\ WellFormed'
-  /\ IF Ev.after = "tear"
-     THEN \* a simulated unclean shutdown may have cut records away: the key set is re-based on the index found
-          live' = [k \in TraceKeys |-> IF (Get(k) # 0)' THEN 1 ELSE 0]
-     ELSE UNCHANGED live /\ (\A k \in TraceKeys : (Get(k) # 0)' <=> live[k] # 0)
-  /\ nkeys' = Cardinality({k \in TraceKeys : live'[k] # 0})
+TRecStep ==
+  /\ rq # <<>> /\ UNCHANGED l
+  /\ IF Head(rq)[1] = "put" THEN Put(Head(rq)[2]) ELSE Del(Head(rq)[2])
+  /\ rq' = Tail(rq)
+\* ... and the index the real recovery built must then be the model's, bucket for bucket (a clean restart, "open",
+\* falls under TSame: level, split pointer, counts, free list and every chain come back exactly as they were closed)
+TOpened ==
+  /\ Is("idx") /\ Ev.after \in {"recovered", "tear"} /\ Step /\ rq = <<>>
+  /\ SlotHashesOK(Ev)
+  /\ Matches(Ev, level, split, nkeys, main, ovf, free)
+  /\ UNCHANGED <<vars, rq>>
 
-TPut == /\ Is("idx") /\ Ev.after = "put" /\ Step
+TPut == /\ Is("idx") /\ Ev.after = "put" /\ Step /\ rq = <<>> /\ rq' = rq
         /\ Put(Ev.k)
         /\ SlotHashesOK(Ev)
         /\ Matches(Ev, level', split', nkeys', main', ovf', free')
 
-TDel == /\ Is("idx") /\ Ev.after = "del" /\ Step
+TDel == /\ Is("idx") /\ Ev.after = "del" /\ Step /\ rq = <<>> /\ rq' = rq
         /\ Del(Ev.k)
         /\ Matches(Ev, level', split', nkeys', main', ovf', free')
 
 \* calls that must not change the shape of the index (compaction repoints slots, which the projection hides)
 TSame == /\ Is("idx") /\ Ev.after \notin {"recovered", "tear", "put", "del"} /\ Step
          /\ Matches(Ev, level, split, nkeys, main, ovf, free)
-         /\ UNCHANGED vars
+         /\ rq = <<>> /\ UNCHANGED <<vars, rq>>
 
-TOther == l <= Len(Trace) /\ Trace[l].e \notin {"reset", "idx"} /\ Step /\ UNCHANGED vars
+TOther == /\ l <= Len(Trace) /\ Trace[l].e \notin {"reset", "idx"} /\ Step /\ rq = <<>> /\ UNCHANGED <<vars, rq>>
+          /\ ~(Trace[l].e = "wal" /\ Trace[l].after \in {"recovered", "tear"})
 
-TNext == TReset \/ TOpened \/ TPut \/ TDel \/ TSame \/ TOther
+TNext == TReset \/ TRecBegin \/ TRecStep \/ TOpened \/ TPut \/ TDel \/ TSame \/ TOther
 TSpec == TInit /\ [][TNext]_tvars
 
 HighWater == TLCSet(1, IF TLCGet(1) >= l THEN TLCGet(1) ELSE l)
